@@ -62,7 +62,7 @@ def structure_list(tier, seed):
             if len(base) > 27:
                 continue
             singles = families.deviations(base, ads, kinds=("vac", "sub"))
-            for (l1, a1), (l2, a2) in itertools.combinations(singles[:: 2], 2):
+            for (l1, a1), (l2, a2) in itertools.combinations(singles[:: 3], 2):
                 if l1[3:] == l2[3:]:
                     continue
                 i1, i2 = int(l1[3:]), int(l2[3:])
@@ -83,7 +83,7 @@ def structure_list(tier, seed):
         out.append(("mol:" + lab, m, None))
     # ---- F1 lattice gas (2x2x2, <=4 atoms quick / all thorough), three spacings, cell kinds
     off = geom.GENERIC_OFFSETS[seed % 4] * 3
-    gas = list(families.lattice_gas((2, 2, 2), max_atoms=3 if tier == "quick" else 8))
+    gas = list(families.lattice_gas((2, 2, 2), max_atoms=3 if tier == "quick" else 5))
     for gi, (sites, cols) in enumerate(gas):
         for spacing in (2.6, 3.4) if tier == "quick" else (2.6, 3.4, 4.5):
             for pbc, kind in (((True, True, True), "cubic"), ((True, True, False), "skew"), ((False, False, False), "none"), ((True, False, False), "cubic")):
